@@ -268,6 +268,12 @@ var keptArgsCases = []struct{ src, want string }{
 	{`(let [kept (atom [])] (map (fn [& xs] (swap! kept conj xs) (count (deref kept))) [:a :b :c]) (deref kept))`, `[(:a) (:b) (:c)]`},
 	{`(let [kept (atom [])] (update {:k 1} :k (fn [& xs] (swap! kept conj xs) 2)) (update {:k 3} :k (fn [& xs] (swap! kept conj xs) 4)) (deref kept))`, `[(1) (3)]`},
 	{`(let [kept (atom [])] (apply (fn [& xs] (swap! kept conj xs)) [1 2]) (apply (fn [& xs] (swap! kept conj xs)) [3]) (deref kept))`, `[(1 2) (3)]`},
+	// a RAW builtin that keeps its argument slice as a list (the kanaka/mal way): the list it returned is a value; the
+	// evaluator's later calls (more than any free list it might keep) do not write into it
+	{`(do (def t (raw-tuple 1 2 3)) (def held {:p (raw-tuple :a :b :c :d)}) (def cl (let [x (raw-tuple 10 20 30)] (fn [] x)))
+	     (def churn (fn [n] (if (< n 1) :done (do (+ 40 2) (str "a" "b") (list n n n) (vector 1 2 3 4) (do 1 2 3) (let [q 1] q) (churn (- n 1))))))
+	     (churn 60)
+	     (list t held (cl)))`, `((1 2 3) {:p (:a :b :c :d)} (10 20 30))`},
 }
 
 func (e *keptArgsEngine) generate(r *rng, n int, tier string, emit func(string)) {
